@@ -862,3 +862,111 @@ def normaliser_rule(syn, prop, rule="C17.R7"):
         r.fail(prop, "anchor-missing parent-dir handling", "no component is removed for `..` in absolute()", fn["file"], fn["line"])
     r.floor = 1
     return r
+
+
+def normaliser_purity_rule(crate, prop, rule="C06.R7"):
+    """path::absolute() gives the registry key of a file.  Two spellings of one location must give one key, in every state
+    of the file system: the function is `cwd.join(path)` cleaned lexically, nothing else."""
+    r = Result(rule, "path::absolute is a function of the working directory and the path text alone: (a) it does not consult the file system (canonicalize/exists/metadata/read_link: the answer changes once the file has been written), (b) every Ok value is collected from the cleaned component stack (or is `.`), never the input itself or something the OS resolved")
+    b = crate.body("export::path::absolute")
+    if b is None:
+        r.fail(prop, "anchor-missing path::absolute", "not found")
+        return r
+    FS = r"(Path|PathBuf)::(canonicalize|exists|try_exists|metadata|symlink_metadata|read_link|is_file|is_dir|is_symlink|read_dir)$|std::fs::"
+    fs_calls = [(blk, t) for blk, t in b.calls() if not b.is_cleanup(blk) and fn_matches(t, FS)]
+    for blk, t in fs_calls:
+        f, l = M.user_span(t["span"])
+        r.fail(prop, "normaliser-consults-filesystem export::path::absolute -> %s" % t["fn"]["path"].split("::")[-1],
+               "%s inside absolute(): the key of a file changes once the file (or a symlink on the way) exists, so the first and the second export of one file use different registry keys and the second one truncates the file" % t["fn"]["path"], f, l)
+    # (b) Ok payloads
+    oks = []
+    for blk in range(b.n):
+        if b.is_cleanup(blk):
+            continue
+        for st in b.stmts(blk):
+            if st["k"] == "assign" and st["dst"]["l"] == 0 and st["rv"]["k"] == "agg" and st["rv"].get("variant") == "Ok":
+                pl = M.op_place(st["rv"]["ops"][0]) if st["rv"]["ops"] else None
+                oks.append((blk, pl["l"] if pl else None))
+    stack_locals = {i for i, l in enumerate(b.locals) if re.search(r"^std::vec::Vec<std::path::Component", l["ty"])}
+    for blk, l0 in oks:
+        srcs = origins(b, l0, identity=M.IDENTITY_CALLS) if l0 is not None else []
+        kinds = []
+        good = bool(srcs)
+        for o in srcs:
+            if o["kind"] == "call" and fn_matches(o["t"], r"Iterator::collect$", r"FromIterator"):
+                # collected from the stack?
+                it = origins(b, op_local(o["t"]["args"][0]), identity=M.IDENTITY_CALLS + [r"slice::<impl \[T\]>::iter$", r"IntoIterator>::into_iter$", r"Iterator::(map|cloned|copied)$", r"Deref::deref$"])
+                from_stack = any(x["kind"] == "call" and x["t"]["dst"]["l"] in stack_locals for x in it) or any(x["kind"] == "local" and x.get("l") in stack_locals for x in it)
+                kinds.append("collect(stack)" if from_stack else "collect(?)")
+                good = good and from_stack
+            elif o["kind"] == "call" and fn_matches(o["t"], r"convert::From::from$", r"PathBuf::from$") and (op_const(o["t"]["args"][0]) or {}).get("str") == ".":
+                kinds.append('"."')
+            elif o["kind"] == "const" and (o.get("c") or {}).get("str") == ".":
+                kinds.append('"."')
+            else:
+                kinds.append(o["kind"] + ":" + (M.callee(o["t"]) or "?" if o["kind"] == "call" else ""))
+                good = False
+        r.inst(fn=b.path, ok_value_from=kinds, cleaned=good)
+        if not good:
+            f, l = b.file(), b.line()
+            r.fail(prop, "normaliser-returns-uncleaned export::path::absolute",
+                   "a success value of absolute() does not come from the cleaned component stack (%s): `/x/out` and `/x/sibling/../out` stay two different registry keys, the second export of the shared file is taken for the first and truncates it" % kinds, f, l)
+    if not oks:
+        r.fail(prop, "anchor-missing Ok value", "absolute() builds no Ok(..)", b.file(), b.line())
+    r.floor = 1
+    return r
+
+
+def written_text_rule(crate, prop, rule="C04.R9"):
+    """what export_to() hands to the writer is the generated module, possibly re-formatted - on every path"""
+    r = Result(rule, "the text export_to() passes to export_and_merge() originates, on every path, from export_to_string() or from the formatter's output for it; no default, empty or constant string can take its place (with the `format` feature, dprint answers `None` for text that is already formatted)")
+    b = crate.body("export::export_to")
+    if b is None:
+        r.fail(prop, "anchor-missing export_to", "not found")
+        return r
+    ALLOWED = [r"export::export_to_string$", r"dprint_plugin_typescript::format_text$"]
+    ADAPT = M.IDENTITY_CALLS + [r"Result::<T, E>::map_err$", r"Try::branch$", r"Option::<T>::(unwrap|expect)$"]
+    SUBST = r"unwrap_or_default$|unwrap_or$|unwrap_or_else$|Default::default$|String::new$|String::with_capacity$"
+
+    def classify(body, local, depth=0):
+        out = []
+        for o in origins(body, local, identity=ADAPT):
+            if o["kind"] == "call":
+                c = M.callee(o["t"]) or "?"
+                if any(re.search(a, c) for a in ALLOWED):
+                    out.append(("generated", c))
+                elif re.search(SUBST, c):
+                    out.append(("substitute", c))
+                elif c.startswith("export::") and depth < 3 and crate.body(c) is not None:
+                    cb = crate.body(c)
+                    inner = []
+                    for blk in range(cb.n):
+                        if cb.is_cleanup(blk):
+                            continue
+                        for st in cb.stmts(blk):
+                            if st["k"] == "assign" and st["dst"]["l"] == 0 and st["rv"]["k"] == "agg" and st["rv"].get("variant") in ("Ok", "Some") and st["rv"]["ops"]:
+                                pl = M.op_place(st["rv"]["ops"][0])
+                                if pl:
+                                    inner += classify(cb, pl["l"], depth + 1)
+                    out += inner or [("opaque", c)]
+                else:
+                    out.append(("other", c))
+            elif o["kind"] == "const":
+                out.append(("substitute", "constant %r" % ((o.get("c") or {}).get("str"),)))
+            elif o["kind"] == "arg":
+                out.append(("generated", "parameter (caller's text)") if depth else ("other", "parameter"))
+        return out
+
+    sinks = [(blk, t) for blk, t in b.calls() if not b.is_cleanup(blk) and fn_matches(t, r"export::export_and_merge$")]
+    if not sinks:
+        r.fail(prop, "anchor-missing writer call", "export_to does not call export_and_merge", b.file(), b.line())
+    for blk, t in sinks:
+        cl = classify(b, op_local(t["args"][2]))
+        bad = [c for k, c in cl if k != "generated"]
+        f, l = M.user_span(t["span"])
+        r.inst(fn=b.path, written_text_from=sorted(set(c for _, c in cl)), ok=not bad and bool(cl))
+        if bad or not cl:
+            r.fail(prop, "written-text-substituted export::export_to",
+                   "the text written to the file can come from %s instead of the generated module: when the formatter reports `no change` the file is written empty (no notice, no declaration)" % sorted(set(bad)), f, l)
+    r.floor = 1
+    return r
